@@ -3,11 +3,35 @@
 //!   fvharness steer --in behaviours.jsonl --out trace.ndjson [--cancelable] [--ring K] [--queue Q] [--stack S] [--seed N]
 
 mod adapters;
+mod stress;
 mod ops;
 mod rt;
 mod steer;
 
+use std::alloc::{GlobalAlloc, Layout, System};
 use std::collections::HashMap;
+use std::sync::atomic::{AtomicIsize, Ordering};
+
+/// Counts the bytes that are currently allocated (C08: state that the statistics hook cannot see
+/// still shows up here).
+pub struct Counting;
+pub static LIVE: AtomicIsize = AtomicIsize::new(0);
+unsafe impl GlobalAlloc for Counting {
+    unsafe fn alloc(&self, l: Layout) -> *mut u8 {
+        LIVE.fetch_add(l.size() as isize, Ordering::Relaxed);
+        System.alloc(l)
+    }
+    unsafe fn dealloc(&self, p: *mut u8, l: Layout) {
+        LIVE.fetch_sub(l.size() as isize, Ordering::Relaxed);
+        System.dealloc(p, l)
+    }
+    unsafe fn realloc(&self, p: *mut u8, l: Layout, n: usize) -> *mut u8 {
+        LIVE.fetch_add(n as isize - l.size() as isize, Ordering::Relaxed);
+        System.realloc(p, l, n)
+    }
+}
+#[global_allocator]
+static GLOBAL: Counting = Counting;
 
 fn main() {
     let args: Vec<String> = std::env::args().collect();
@@ -46,6 +70,25 @@ fn main() {
                 op_sleep_us: num("op-sleep-us", 0),
             };
             match steer::run(&kv["in"], &kv["out"], opts) {
+                Ok(c) => c,
+                Err(e) => {
+                    eprintln!("harness error: {e}");
+                    2
+                }
+            }
+        }
+        "stress" => {
+            let opts = stress::Opts {
+                cancelable: kv.contains_key("cancelable"),
+                threads: num("threads", 4) as usize,
+                interval_us: num("interval-us", 200),
+                ring: num("ring", 0) as usize,
+                queue: num("queue", 0) as usize,
+                stack: num("stack", 0) as usize,
+                seed: num("seed", 1),
+                rounds: num("rounds", 50) as usize,
+            };
+            match stress::run(&kv["in"], &kv["out"], opts) {
                 Ok(c) => c,
                 Err(e) => {
                     eprintln!("harness error: {e}");
